@@ -503,7 +503,7 @@ def l2_suite(profile, quick=60, thorough=1500, native=True, name=None, extra_mon
                 kid = known_match(ctx, 'rolled_back_insert_stays_visible')
                 if kid:
                     m['finding'] = kid; res.known_hits.append(m)
-                elif ctx.prop in ('C05', 'C14'):
+                elif ctx.prop in ('C05', 'C14', 'C16'):
                     res.property_failures.append(m)
                 else:
                     res.stats_excused = getattr(res, 'stats_excused', 0) + 1   # recorded under C05 (finding F-C05-1)
@@ -622,11 +622,14 @@ def rolled_back_insert_excuse(case, j, got, want):
     rolled back (explicitly, or by a failing statement or commit) stays visible to the connection
     and is persisted by its next commit.  Shape, at the FIRST divergence of a history (segment j,
     op j-1): the table has a small entries_per_node; the op is on a connection with such rolled-back
-    INSERT keys R; and either it is a SELECT returning the expected rows plus rows with keys in R,
-    or a write addressing a key in R, or the COMMIT of a transaction that addressed a key in R."""
+    INSERT keys R; and either it is a SELECT (on any connection: the next commit persists the row)
+    returning the expected rows plus rows with keys in R, or a write addressing a key in R, or the
+    COMMIT of a transaction that addressed a key in R."""
     t = case.split()
     if t[1] != 'sqlhist' or t[3] == '0':
         return False
+    got = [x for x in got if not x.startswith('RO:')]
+    want = [x for x in want if not x.startswith('RO:')]
     ops = sql_ops_full(case)
     if not (1 <= j <= len(ops)):
         return False
@@ -652,6 +655,9 @@ def rolled_back_insert_excuse(case, j, got, want):
             touched[c].add(q['key'])
         prev = q
     r = R.get(o['conn'], set())
+    if o['kind'] in ('sel', 'vacuum'):
+        # (the connection's next commit persists the row: any reader may then see it)
+        r = set().union(*R.values()) if R else set()
     if not r:
         return False
     if o['kind'] in ('ins', 'upd', 'del'):
@@ -664,9 +670,10 @@ def rolled_back_insert_excuse(case, j, got, want):
         want = ['SA'] + want[want.index('VB') + 1:want.index('VA')]
         o = dict(o, kind='sel')
     if o['kind'] == 'sel':
-        if len(got) >= 2 and got[1] == 'err' and o['conn'] in failed_commit:
+        if len(got) >= 2 and got[1] == 'err' and failed_commit:
             # the leaf of an INSERT whose commit failed was never stored, but mast marked it clean
-            # (root cause of F-C14-1) and it hangs off the snapshot: the scan asks storage for it
+            # (root cause of F-C14-1) and it hangs off the snapshot: the scan asks storage for it —
+            # on the writer, or on any reader once the writer's next commit has persisted the link
             return True
         if len(got) < 2 or len(want) < 2 or got[0] != want[0] or got[1] != 'ok' or want[1] != 'ok':
             return False
